@@ -1232,7 +1232,12 @@ class Glyph(object):
                 if boundsDone is not None:
                     boundsDone.add(glyphName)
             # empty components shouldn't update the bounds of the parent glyph
-            if g.yMin == g.yMax and g.xMin == g.xMax:
+            # (a component whose points all coincide has a degenerate box too)
+            if (
+                g.yMin == g.yMax
+                and g.xMin == g.xMax
+                and not len(g.getCoordinates(glyfTable)[0])
+            ):
                 continue
 
             x, y = compo.x, compo.y
